@@ -51,6 +51,7 @@ def run(ctx):
     td = qsend.analyse_todo_do(db, rep)
     attach(r4, td, only={'todo:confirmed-message-is-scheduled', 'todo:schedule-only-after-qmail-clean-confirmed'})
     # pass_do: pqfail -> pqadd, pqdone -> messdone
+    qsend.require_globals(db, 'pqfail', 'pqdone', 'pqchan')
     pd = prog.fn('pass_do', 'qmail-send.c')
 
     class PD(qsend.SendHooks):
